@@ -76,8 +76,10 @@ FormProd(fs) ==
        IN Outer(1)
 NForm(mo, a) == << AdjForm(DExp(mo, a)), DExp(mo, a) >>            \* n_a = d^+_a d_a
 ScaleTerms(ts, z) == [k \in 1..Len(ts) |-> [ops |-> ts[k].ops, num |-> ts[k].num * z]]
-RECURSIVE Cat(_)
-Cat(ss) == IF ss = <<>> THEN <<>> ELSE Head(ss) \o Cat(Tail(ss))
+RECURSIVE CatRange(_, _, _)
+CatRange(ss, lo, hi) == IF lo > hi THEN <<>> ELSE IF lo = hi THEN ss[lo]
+                        ELSE LET mid == (lo + hi) \div 2 IN CatRange(ss, lo, mid) \o CatRange(ss, mid + 1, hi)
+Cat(ss) == CatRange(ss, 1, Len(ss))
 DEof(mo) == LET D == DenOfModel(mo) IN D * D * D * D
 \* H * DE as a list of [ops, num]
 HcTerms(mo) ==
